@@ -105,6 +105,9 @@ use crate::proto::{
     rr::{Label, Name, RData, Record, RecordType},
 };
 
+/// DNAME (RFC 6672), which has no `RecordType` variant of its own
+const DNAME: RecordType = RecordType::Unknown(39);
+
 pub(super) fn verify_nsec3(
     query: &Query,
     soa: Option<&Name>,
@@ -543,6 +546,17 @@ impl<'a> Context<'a> {
         else {
             return ClosestEncloserProofInfo::default();
         };
+
+        // RFC 5155 8.3: the NSEC3 RR that matches the closest encloser must be from the proper zone:
+        // "The DNAME type bit must not be set and the NS type bit may only be set if the SOA type
+        // bit is set." Otherwise it is the parent side of a delegation (or a DNAME owner) and says
+        // nothing about names below it.
+        let types = closest_encloser_matching_record.nsec3_data.type_set();
+        if types.contains(DNAME)
+            || (types.contains(RecordType::NS) && !types.contains(RecordType::SOA))
+        {
+            return ClosestEncloserProofInfo::default();
+        }
 
         // Find the index in the candidate list associated with the closest encloser name.
         let Some(closest_encloser_index) = closest_encloser_candidates
